@@ -215,6 +215,23 @@ pub fn run(outdir: &str, seed: u64, thorough: bool) -> serde_json::Value {
             laws(&mut st, &a, "text", &text, &vs, k + 10);
         }
     }
+    // ---- floats that agree on their first digits, at large and small magnitudes, into every target: a conversion through a
+    // rounded text (or a narrower number) would merge them
+    {
+        let tg = targets();
+        for k in 0..(if thorough { 3000 } else { 200 }) {
+            let mut r = rng.fork();
+            let mag = *r.pick(&[1e4, 12345.61, 98765.4321, 1.5e9, 3.3e15, 1e-4, 1.2345678e-5, 7.77e-9, 4.2e-300, 1.0, 250.5, 9999.99]);
+            let x = mag * (1.0 + (r.range(0, 1000) as f64) * 1e-4);
+            let ys = [x, x * (1.0 + 1e-7), f64::from_bits(x.to_bits() + 1), -x, -(x * (1.0 + 1e-9))];
+            let (lo, hi) = (ys.iter().cloned().fold(f64::INFINITY, f64::min), ys.iter().cloned().fold(f64::NEG_INFINITY, f64::max));
+            let a = if r.chance(1, 2) { DataType::float_interval(lo, hi) } else { DataType::float_values(ys.to_vec()) };
+            let vs: Vec<Value> = ys.iter().map(|y| Value::float(*y)).collect();
+            let (tn, b) = r.pick(&tg).clone();
+            st.bump("close_float_cases");
+            laws(&mut st, &a, &tn, &b, &vs, k + 10);
+        }
+    }
     // pinned witness of the known finding C12-int-float-above-2p53 (replayed on every run)
     {
         let a = *i2f.value(&value::Integer::from(9007199254740992)).unwrap();
